@@ -20,6 +20,33 @@ ENGINES = {
 
 # id -> (engine, category, technique, level text, level note)
 CHECKS = {
+    'C09': (
+        'generators', 'exploration',
+        'Hypothesis-generated engine packages (both factory styles, on disk, '
+        'scanned by pl.scan) vs an independent reference dependency graph',
+        'Every generated acyclic engine is materialised as a Python package, '
+        'scanned by the real dawgie.pl.scan and turned into a '
+        'dag.Construct; node sets, edge sets at algorithm / state-vector / '
+        'value / task granularity, ancestor closure, parents, feedback '
+        'attributes and the feedback map are compared (both inclusions) '
+        'with a reference graph computed from the spec alone.',
+        'bounded sizes (<=8 algorithms, <=4 packages); dot rendering '
+        'stubbed; no self-references.',
+    ),
+    'C15': (
+        'generators', 'exploration',
+        'exhaustive enumeration of version pairs on a grid + Hypothesis big '
+        'ints vs tuple order; generated engines x persisted-version tables '
+        'vs reference rescheduling set (stub tables and real shelve round '
+        'trip)',
+        'The comparison part enumerates all 15 625 ordered pairs over '
+        '{0,1,2,9,10}^3 (exhaustive for that grid) and random large triples; '
+        'the build part compares the pending set after schedule.build with '
+        'the set computed from the spec and the chosen bumps, both '
+        'inclusions, with persisted tables supplied directly and through a '
+        'real shelve store (version.record of the old engine, db.versions).',
+        'non-negative int components; shelve/stub backends only.',
+    ),
     'C17': (
         'shelve-rig', 'exploration',
         'Hypothesis-generated stores and requests vs brute-force filter; '
